@@ -16,6 +16,16 @@ class El(wiring.Component):
         return Module()
 
 
+class EqEl(El):
+    """register objects of a value-like class: distinct instances with the same parameters compare and
+    hash equal (a memory map and a multiplexer tell registers apart by identity)"""
+    def __eq__(self, other):
+        return isinstance(other, EqEl) and other.element.width == self.element.width and other.element.access == self.element.access
+
+    def __hash__(self):
+        return hash(("EqEl", self.element.width, self.element.access.value))
+
+
 def gen_case(seed, idx, side, ncycles):
     return {"seed": seed, "idx": idx, "side": side, "ncycles": ncycles}
 
@@ -43,6 +53,15 @@ def build_layout(rnd, late=None, more=0, more_rnd=None):
             regs.append(r)
         except ValueError:
             pass
+    if more_rnd is not None and more_rnd.random() < 0.15 and len(regs) >= 1:
+        # two registers of a value-like class with the same parameters (equal, yet two registers)
+        for i in range(2):
+            r = EqEl(dw, "rw")
+            try:
+                mm.add_resource(r, name=f"q{i}", size=1)
+                regs.append(r)
+            except ValueError:
+                break
     if more:
         for i in range(more):                       # a few more one-chunk registers wherever there is room (own stream)
             r = El(more_rnd.choice([1, dw, max(dw - 1, 1)]), more_rnd.choice(["r", "w", "rw"]))
@@ -185,7 +204,7 @@ def run_impl(case):
                         stats["rd_strobes"] += 1
                         r = hit[0]
                         if addr == layout[id(r)][0]:
-                            live = (r, rv[regs.index(r)])
+                            live = (r, rv[next(k_ for k_, q_ in enumerate(regs) if q_ is r)])
                         if live is not None and live[0] is r:
                             exp_rdata = sl(live[1], addr - layout[id(r)][0])
                             stats["rd_snap_checked"] += 1
